@@ -86,54 +86,95 @@ void h_ht_create(void)
 }
 
 #if HT_ORDER >= 7
-/* ---- displacement: find_closer_entry (reachable only for orders >= 7) -------------------------------
- * "Inv with a hole at f": slot f is unreferenced and not part of the view (its stale key/value are ignored).
- * The free position HT_F is a compile-time constant per unit: the table is rotation-symmetric (all index
- * arithmetic is modulo N, the hash function is arbitrary), so one position stands for all - stated as an
- * assumption in the evidence; positions 0 (wrap-around), N/2 and N-1 are run. */
+/* ---- displacement: find_closer_entry (reachable only for orders >= 7) -------------------------------------
+ * Window-based contract.  find_closer_entry(table, f) only reads and writes the 32 slots f-31..f and the hop
+ * bitmaps of the 31 homes before f.  "Inv with a hole at f" is therefore stated as
+ *   (i)   the hole is unreferenced: for every home h in f-31..f the bit (f-h) of h is clear;
+ *   (ii)  Inv-A for every bit of every home in f-62..f-1 (constant indices once f is fixed), Inv-C between the
+ *         window slots and the ghost slots;
+ *   (iii) Inv-A / Inv-B / Inv-C at GHOST indices (gh,gd), gp, gq chosen arbitrarily before the call,
+ * and the postcondition re-establishes (i) for the new hole, and (iii) at the same arbitrary ghost indices
+ * (universal generalisation), plus: the view is unchanged (the entry of ghost slot gp is still stored, with its
+ * value, at gp or - if gp was the moved slot - at f), the hole moves 1..31 slots towards the home, and the function
+ * gives up only if no entry in the window can move.  The free position f is a compile-time constant per unit:
+ * the table is rotation-symmetric (all index arithmetic is modulo N, the hash is arbitrary), so one position
+ * stands for all (assumption); f = 5 makes the window wrap around the table end. */
 #ifndef HT_F
-#define HT_F 0
+#define HT_F 5
 #endif
-static inline _Bool ht_inv_hole(const struct ht_table *t, uint32_t f)
+#define SLOT(t, x) ((t)->s[HT_WRAP(x)])
+static inline _Bool live_h(const struct ht_table *t, uint32_t p, uint32_t hole) { return p != hole && t->s[p].key != HT_INVALID; }
+static inline _Bool wa(const struct ht_table *t, uint32_t h, uint32_t d, uint32_t hole)   /* Inv-A at (h,d) with a hole */
 {
-	struct ht_table tmp = *t;
-	tmp.s[f].key = HT_INVALID;
-	return ht_inv(&tmp) && ht_values_ok(&tmp);
+	if (!((t->s[h].hop_info >> d) & 1u)) return 1;
+	uint32_t s = HT_WRAP(h + d);
+	return live_h(t, s, hole) && HT_H(t->s[s].key) == h;
 }
-static inline void *ht_lookup_hole(const struct ht_table *t, uint32_t f, ht_key_t k)
+static inline _Bool wb(const struct ht_table *t, uint32_t p, uint32_t hole)               /* Inv-B at p with a hole */
 {
-	struct ht_table tmp = *t;
-	tmp.s[f].key = HT_INVALID;
-	return ht_lookup(&tmp, k);
+	if (!live_h(t, p, hole)) return 1;
+	uint32_t h = HT_H(t->s[p].key), d = HT_WRAP(p - h);
+	return d < 32 && ((t->s[h].hop_info >> d) & 1u);
 }
-/* some entry within the 31 slots before f could be moved to f without leaving its home's hop range */
-static inline _Bool ht_movable_exists(const struct ht_table *t, uint32_t f)
+static inline _Bool wc(const struct ht_table *t, uint32_t p, uint32_t q, uint32_t hole)  /* Inv-C at (p,q) with a hole */
 {
-	for (uint32_t d = 1; d < 32; d++) {
-		uint32_t cp = HT_WRAP(f - d);
-		for (uint32_t i = 0; i < d; i++)
-			if ((t->s[cp].hop_info >> i) & 1u) return 1;
-	}
+	return p == q || !live_h(t, p, hole) || !live_h(t, q, hole) || t->s[p].key != t->s[q].key;
+}
+static inline _Bool hole_unreferenced(const struct ht_table *t, uint32_t f)
+{
+	for (uint32_t d = 0; d < 32; d++) if ((SLOT(t, f - d).hop_info >> d) & 1u) return 0;
+	return 1;
+}
+static inline _Bool window_a(const struct ht_table *t, uint32_t f)
+{
+	/* homes f-62..f-1: every home that can reference a slot of f-31..f */
+	for (uint32_t b = 1; b < 63; b++) for (uint32_t d = 0; d < 32; d++) if (!wa(t, HT_WRAP(f - b), d, f)) return 0;
+	return 1;
+}
+static inline _Bool window_c(const struct ht_table *t, uint32_t f, uint32_t g)
+{
+	/* no slot of the window holds the key of ghost slot g */
+	for (uint32_t b = 1; b < 32; b++) if (!wc(t, HT_WRAP(f - b), g, f) || !wc(t, g, HT_WRAP(f - b), f)) return 0;
+	return 1;
+}
+static inline _Bool movable_exists(const struct ht_table *t, uint32_t f)
+{
+	for (uint32_t d = 1; d < 32; d++) { uint32_t hop = SLOT(t, f - d).hop_info; for (uint32_t i = 0; i < d; i++) if ((hop >> i) & 1u) return 1; }
 	return 0;
 }
 void h_ht_closer(void)
 {
 	struct ht_table T, T0;
-	ht_key_t k2;
 	const uint32_t f = HT_F;
-	__CPROVER_assume(ht_inv_hole(&T, f));
+	uint32_t gh = nondet_u32(), gd = nondet_u32(), gp = nondet_u32(), gq = nondet_u32();
+	__CPROVER_assume(gh < HT_N && gd < 32 && gp < HT_N && gq < HT_N);
+	__CPROVER_assume(hole_unreferenced(&T, f) && window_a(&T, f));
+	__CPROVER_assume(wa(&T, gh, gd, f) && wb(&T, gp, f) && wb(&T, gq, f) && wc(&T, gp, gq, f) && wc(&T, gq, gp, f));
+	__CPROVER_assume(window_c(&T, f, gp) && window_c(&T, f, gq));
 	T0 = T;
 	uint32_t r = find_closer_entry_VT(T.s, f);
 	if (r == 0xffffffff) {
-		HT_ASSERT(1, ht_same(&T0, &T), "C17.closer.no-candidate-changes-nothing");
-		HT_ASSERT(2, !ht_movable_exists(&T0, f), "C17.closer.gives-up-only-when-no-entry-can-move");
+		HT_ASSERT(1, T.s[gp].key == T0.s[gp].key && T.s[gp].value.vals[0] == T0.s[gp].value.vals[0] && T.s[gp].hop_info == T0.s[gp].hop_info, "C17.closer.no-candidate-changes-nothing");
+		HT_ASSERT(2, !movable_exists(&T0, f), "C17.closer.gives-up-only-when-no-entry-can-move");
 	} else {
 		HT_ASSERT(3, r < HT_N && HT_WRAP(f - r) >= 1 && HT_WRAP(f - r) <= 31, "C17.closer.hole-moves-closer-to-the-home");
-		HT_ASSERT(4, r < HT_N && ht_inv_hole(&T, r), "C17.closer.inv-preserved-with-the-new-hole");
-		HT_ASSERT(5, r < HT_N && ht_lookup_hole(&T0, f, k2) == ht_lookup_hole(&T, r, k2), "C17.closer.view-unchanged");
+		if (r < HT_N) {
+			HT_ASSERT(4, hole_unreferenced(&T, r), "C17.closer.new-hole-is-unreferenced");
+			HT_ASSERT(5, wa(&T, gh, gd, r), "C17.closer.inv-A-preserved-at-an-arbitrary-bit");
+			HT_ASSERT(6, wb(&T, gp, r), "C17.closer.inv-B-preserved-at-an-arbitrary-slot");
+			HT_ASSERT(7, wc(&T, gp, gq, r), "C17.closer.inv-C-preserved-at-an-arbitrary-pair");
+			/* view: the entry that lived in ghost slot gp is still stored with its value - in gp, or in f if gp was moved */
+			if (live_h(&T0, gp, f)) {
+				uint32_t now = (gp == r) ? f : gp;
+				HT_ASSERT(8, live_h(&T, now, r) && T.s[now].key == T0.s[gp].key && T.s[now].value.vals[0] == T0.s[gp].value.vals[0], "C17.closer.every-entry-keeps-its-key-and-value");
+			}
+			/* nothing appears: a slot that is live afterwards held the same key before (or is f and holds the moved key) */
+			if (live_h(&T, gp, r) && gp != f) HT_ASSERT(9, live_h(&T0, gp, f) && T.s[gp].key == T0.s[gp].key, "C17.closer.no-entry-appears");
+		}
 	}
 	VERIF_COVER(r != 0xffffffff && HT_WRAP(f - r) == 31, "entry moved by 31 slots");
 	VERIF_COVER(r != 0xffffffff && HT_WRAP(f - r) == 1, "entry moved by one slot");
+	VERIF_COVER(r != 0xffffffff && r > f, "moved across the table end");
 	VERIF_COVER(r == 0xffffffff, "no candidate");
 }
 #endif
